@@ -8,6 +8,9 @@ plus the writes issued since the last completed sync; a crash keeps the durable 
 pending writes, any subset, each possibly torn (a torn page holds garbage, a torn header is `bad` —
 the latter is the NoTornCollision hypothesis: no mix of old and new header words has a valid checksum;
 it is evaluated, not assumed, on every header tear the correspondence run synthesises).
+Not modelled: the file's length and `fallocate` (the `.grow` step produces no `IoOp`), writes still unsynced
+when a commit begins (every theorem starts from `pending := []`), sector-level reordering inside one write
+beyond "torn = garbage" (A-disk).
 -/
 import Jamm.Model.Steps
 namespace Jamm
